@@ -83,7 +83,7 @@ Section GenMain.
   Variable V : Type.
   Variable parse : string -> option V.
   Variable print : V -> string.
-  Variable lib : list (string * value) -> bool -> list (list V)
+  Variable lib : list (string * value) -> bool -> nat -> list (list V)
                  -> option (list (list V) * option (list (list V) * list V)).
 
   Definition gen_main := cli_main V parse print lib gen_tables gen_read_loop gen_read_check.
@@ -111,6 +111,7 @@ Section GenMain.
     | RWrong _ => Fail 1%Z
     | RMat file =>
       match lib ps (flag g ["precompute"])
+                (if negb (flag g ["transpose-input"]) then length file else width V file)
                 (if negb (flag g ["transpose-input"]) then transpose V file else file) with
       | None => Fail 1%Z
       | Some (E, proj) =>
